@@ -35,4 +35,5 @@ class StateSpaceModel:
 
 def continuous_state_space_solver(ssm: StateSpaceModel, y: np.ndarray, t: np.ndarray, x0: np.ndarray) -> tuple[np.ndarray, np.ndarray, np.ndarray]:
     sys = scipy.signal.StateSpace(ssm.A, ssm.B, ssm.C, ssm.D)
-    return scipy.signal.lsim(sys, y, t)
+    _, yout, xout = scipy.signal.lsim(sys, y, t-t[0]) # a circuit at rest has no preferred time origin; lsim rejects grids that start before t = 0
+    return t, yout, xout
